@@ -262,9 +262,9 @@ def reader_cases(tier, prop_, release=False):
     return cases
 
 
-def writer_cases(tier, prop_):
+def writer_cases(tier, prop_, phys=False):
     cases = []
-    cfgs = ['mem', 'alt', 'ovl_lower', 'ovl_upper']
+    cfgs = ['mem', 'alt', 'ovl_lower', 'ovl_upper'] + (['phys'] if phys else [])
     k = 2 if tier == 'quick' else 3
     for cfg in cfgs:
         seqs = [('create',), ('append',), ('create', 'append'), ('append', 'append')]
@@ -308,7 +308,7 @@ def c04(tier, seed):
     ck = Check('C04', tier, seed)
     prog = load_program()
     ck.selftest = quick_selftest(prog, seed, 12 if tier == 'quick' else 150, kinds=['mem', 'alt', 'ovl'])
-    ck.add(run_cases(prog, handles.run_writer_case, writer_cases(tier, 'C04')), 'write sessions (create/append x write/seek/flush) + fresh reads, metadata len, copy/move')
+    ck.add(run_cases(prog, handles.run_writer_case, writer_cases(tier, 'C04', phys=True)), 'write sessions (create/append x write/seek/flush) + fresh reads, metadata len, copy/move; MemoryFS, adapters, PhysicalFS@OSM')
     ck.bounds = {'sessions': '1..3 per file', 'script_steps': 2 if tier == 'quick' else 3, 'written_bytes': '1..2 symbolic per write',
                  'pre_existing_bytes': '0 or 2 symbolic', 'read_buffer_sizes': [1, 3]}
     ck.assumptions = HANDLE_ASSUMPTIONS
@@ -397,7 +397,7 @@ def c19(tier, seed):
     ck = Check('C19', tier, seed)
     prog = load_program()
     ck.selftest = quick_selftest(prog, seed, 12 if tier == 'quick' else 150, kinds=['mem', 'alt', 'ovl'])
-    cases = [{'cfg': c, 'kind': k, 'steps': 2 if tier == 'quick' else 3} for c in ['mem', 'alt', 'ovl_upper', 'ovl_lower'] for k in ['file', 'dir']]
+    cases = [{'cfg': c, 'kind': k, 'steps': 2 if tier == 'quick' else 3} for c in ['mem', 'alt', 'ovl_upper', 'ovl_lower', 'phys', 'alt_phys'] for k in ['file', 'dir']]
     ck.add(run_cases(prog, times.run_times_case, cases), 'setter sequences with symbolic SystemTime values on files and directories')
     ck.bounds = {'configs': ['mem', 'alt', 'ovl_upper', 'ovl_lower'], 'setter_sequence_length': 2 if tier == 'quick' else 3,
                  'time_values': 'any 64-bit instant (solver variable); SystemTime::now = fresh symbolic instant',
@@ -608,7 +608,7 @@ def c02(tier, seed):
     prog = load_program()
     ck.selftest = quick_selftest(prog, seed, 40 if tier == 'quick' else 400, kinds=['phys', 'altphys', 'ovlphys', 'mem'])
     u = UNIVERSES['U5']()
-    ops = [(op, v) for op in ALL_OPS + ['hopen'] for v in u.vars]
+    ops = [(op, v) for op in ALL_OPS + ['hopen', 'create_hold'] for v in u.vars]
     cases = [{'universe': 'U5', 'shape': sh, 'ops': ops} for sh in shapes(u)]
     ck.add(run_cases(prog, mod.run_diff_case, cases), 'every primitive/observer/composite on every path from every well-formed tree, MemoryFS vs PhysicalFS@OSM in lock-step')
     ut = UNIVERSES['UT']()
